@@ -13,6 +13,7 @@ case $V in
   asan)   CC=clang; CXX=clang++; LF="-O1 -fsanitize=address,undefined -fno-sanitize-recover=undefined -fno-omit-frame-pointer"; HV=asan; LSAN="-fsanitize=address,undefined";;
   asan-ndebug) CC=clang; CXX=clang++; LF="-O1 -DNDEBUG -fsanitize=address,undefined -fno-sanitize-recover=undefined -fno-omit-frame-pointer"; HV=asan; LSAN="-fsanitize=address,undefined";;
   tsan)   CC=clang; CXX=clang++; LF="-O1 -fsanitize=thread"; HV=tsan; LSAN="-fsanitize=thread";;
+  preempt) CC=clang; CXX=g++;    LF="-O1 -fsanitize=thread"; HV=preempt; LSAN="";;   # instrumentation only, hooks in sim/preempt.cc, no TSan runtime
   *) echo "unknown variant $V" >&2; exit 2;;
 esac
 DEFS='-std=gnu99 -g -fno-pic -fno-pie -Dmain=lbzip2_main -D_XOPEN_SOURCE=700 -D_FILE_OFFSET_BITS=64 -DPACKAGE_NAME=\"lbzip2\" -DPACKAGE_VERSION=\"devel\" -DKJN_LBZIP2_VERIF'
